@@ -6,7 +6,7 @@ Import ListNotations.
 Open Scope Z_scope.
 
 Definition fk_eqb (a b : fk) : bool :=
-  match a, b with FMain, FMain | FConf, FConf | FStream, FStream | FTls, FTls => true | _, _ => false end.
+  match a, b with FMain, FMain | FConf, FConf | FStream, FStream | FTls, FTls | FSecret, FSecret | FLazy, FLazy => true | _, _ => false end.
 
 Definition ev_eqb (a b : ev) : bool :=
   match a, b with
